@@ -239,8 +239,32 @@ var fxDeps = []protoreflect.FileDescriptor{
 }
 
 // buildFile makes the FileDescriptorProto for the given methods.
+// fxDriftSwap, when set, makes buildFile swap the field numbers of two fields of Req: a
+// backend whose schema has drifted from the one the mux was configured with.
+var fxDriftSwap [2]string
+
 func buildFile(methods []*MethodSpec) *descriptorpb.FileDescriptorProto {
 	msgs, enums := fxMessages()
+	if fxDriftSwap[0] != "" {
+		for _, m := range msgs {
+			if m.GetName() != "Req" {
+				continue
+			}
+			var a, b *descriptorpb.FieldDescriptorProto
+			for _, f := range m.Field {
+				if f.GetName() == fxDriftSwap[0] {
+					a = f
+				}
+				if f.GetName() == fxDriftSwap[1] {
+					b = f
+				}
+			}
+			if a != nil && b != nil {
+				na, nb := a.GetNumber(), b.GetNumber()
+				a.Number, b.Number = proto.Int32(nb), proto.Int32(na)
+			}
+		}
+	}
 	fdp := &descriptorpb.FileDescriptorProto{
 		Name:    proto.String("verif/v1/fixture.proto"),
 		Package: proto.String(fxPkg),
